@@ -7,10 +7,10 @@ So membership in the class of `Thm.C12.tame_refines_spec` is decidable: run `tam
 namespace RsslVerif.Lemmas.MacroTameRun
 open RsslVerif.Model.Macro RsslVerif.Model.MacroTame RsslVerif.Lemmas.MacroTame RsslVerif.Lemmas.MacroHang
 
-def names (env : List Entry) : List String := env.map (·.m.name)
+def entryNames (env : List Entry) : List String := env.map (·.m.name)
 
-theorem names_disable (env : List Entry) (mi : Nat) : names (disable env mi) = names env := by
-  unfold names disable
+theorem names_disable (env : List Entry) (mi : Nat) : entryNames (disable env mi) = entryNames env := by
+  unfold entryNames disable
   apply List.ext_getElem?
   intro j
   simp only [List.getElem?_map, List.getElem?_modify]
@@ -35,7 +35,7 @@ theorem findName_spec (n : String) (env : List Entry) (i mi : Nat) (e : Entry)
       rw [this, List.getElem?_cons_succ]
       exact h2
 
-theorem selects_of_selectIdx (env : List Entry) (n : String) (mi : Nat) (e : Entry) (hnd : (names env).Nodup)
+theorem selects_of_selectIdx (env : List Entry) (n : String) (mi : Nat) (e : Entry) (hnd : (entryNames env).Nodup)
     (h : selectIdx env n = some (mi, e)) : Selects env n mi e := by
   unfold selectIdx at h
   split at h
@@ -49,11 +49,11 @@ theorem selects_of_selectIdx (env : List Entry) (n : String) (mi : Nat) (e : Ent
       simp only [Nat.sub_zero] at hget
       refine ⟨hget, hname, by simpa using hd, ?_⟩
       intro j e2 hj hn2
-      have hlt : j < (names env).length := by
-        simp only [names, List.length_map]
+      have hlt : j < (entryNames env).length := by
+        simp only [entryNames, List.length_map]
         exact (List.getElem?_eq_some_iff.mp hj).1
-      have h1 : (names env)[j]? = (names env)[mi']? := by
-        simp only [names, List.getElem?_map, hj, hget, Option.map_some, hn2, hname]
+      have h1 : (entryNames env)[j]? = (entryNames env)[mi']? := by
+        simp only [entryNames, List.getElem?_map, hj, hget, Option.map_some, hn2, hname]
       exact (List.getElem?_inj hlt hnd).mp h1
   · cases h
 
@@ -150,7 +150,7 @@ theorem mapO_spec {α β : Type} (f : α → Option β) (l : List α) (r : List 
         | succ j => exact h2 j a b (by simpa using ha) (by simpa using hb)
 
 /-- **`tameRun` is sound.** -/
-theorem tameRun_sound (f : Nat) : ∀ (env : List Entry) (l out : List PTok), (names env).Nodup →
+theorem tameRun_sound (f : Nat) : ∀ (env : List Entry) (l out : List PTok), (entryNames env).Nodup →
     tameRun f env l = some out → Tame env l out := by
   induction f with
   | zero => intro env l out _ h; simp [tameRun] at h
@@ -233,7 +233,7 @@ theorem findName_none (n : String) (env : List Entry) (i : Nat) (h : findName n 
       · exact hn
       · exact ih (i + 1) h e he
 
-theorem selectIdx_none (env : List Entry) (n : String) (hnd : (names env).Nodup) (h : selectIdx env n = none) :
+theorem selectIdx_none (env : List Entry) (n : String) (hnd : (entryNames env).Nodup) (h : selectIdx env n = none) :
     ∀ e ∈ env, e.m.name = n → e.disabled = true := by
   unfold selectIdx at h
   split at h
@@ -244,11 +244,11 @@ theorem selectIdx_none (env : List Entry) (n : String) (hnd : (names env).Nodup)
       simp only [Nat.sub_zero] at hget
       intro e he hn
       obtain ⟨j, hj⟩ := List.mem_iff_getElem?.mp he
-      have hlt : j < (names env).length := by
-        simp only [names, List.length_map]
+      have hlt : j < (entryNames env).length := by
+        simp only [entryNames, List.length_map]
         exact (List.getElem?_eq_some_iff.mp hj).1
-      have h1 : (names env)[j]? = (names env)[mi]? := by
-        simp only [names, List.getElem?_map, hj, hget, Option.map_some, hn, hname]
+      have h1 : (entryNames env)[j]? = (entryNames env)[mi]? := by
+        simp only [entryNames, List.getElem?_map, hj, hget, Option.map_some, hn, hname]
       have := (List.getElem?_inj hlt hnd).mp h1
       subst this
       rw [hget] at hj
@@ -261,7 +261,7 @@ theorem selectIdx_none (env : List Entry) (n : String) (hnd : (names env).Nodup)
 
 /-- a table of object-like macros whose replacement lists contain no `##` (and no parameter) -/
 structure ObjTable (env : List Entry) : Prop where
-  nodup : (names env).Nodup
+  nodup : (entryNames env).Nodup
   obj : ∀ e ∈ env, e.m.isFunction = false
   noConcat : ∀ e ∈ env, NoConcat e.m.body
   noArg : ∀ e ∈ env, ∀ t ∈ e.m.body, ∀ i, t.tok ≠ .arg i
